@@ -14,12 +14,19 @@
    exercised only by the end-to-end oracle of harness/props/C07.py (real CLI runs on degenerate data sets, every output mode, every
    file read back with the project's reader).
 
-   Run-level glue NOT modelled here: the per-query loop of _WorkflowCoordinator.execute/__align (peak selection, the unconditional zip-unpacking of the
-   candidate rows — the site of repair a237a4e —, best-candidate choice), the second pass of _MultiPassWorkflowCoordinator
-   (which rows go to which file in the four output modes) and Program.run.  A run-level model (model/Coordinator.v, model/MultiPass.v)
-   is being written separately and is not part of this development yet.
-   TODO C07_run_total (to be stated over that model, not provable here): for all well-formed maps, all modes and all parameter sets
-   with SU <= 0 < MS,  run refs queries = Ok files  /\  every file of `files` satisfies the hypothesis of C07_reader_total.
+   Run-level glue (section 7, added): the per-query loop of _WorkflowCoordinator.execute/__align (candidate rows, best-candidate choice,
+   pair-less rows dropped), the second pass of _MultiPassWorkflowCoordinator (getUnalignedFragments for every first-pass row, second
+   execute, AlignmentResults.resolve, which rows go to which file in the four output modes) and Program.run are modelled in
+   model/Coordinator.v over an ABSTRACT seeding function `seeds` (reference, strand and secondary peaks of every selected primary peak:
+   the numpy/scipy part).  C07_run_total: for SU <= 0 < MS, trimmed queries with distinct ids, strictly ascending references, ANY
+   seeding function that proposes only maps it was given (seeds_ok), ANY mode and maxDifference, program_run returns Ok: the modelled
+   glue never raises.  The one step that was open — AlignmentResultRow.resolve reads startPosition/endPosition of segments[0] of both
+   parts, which raise IndexError on a non-empty segment without aligned pair — is closed by C07_aligner_first_segment_defined:
+   segments[0] of a row Aligner.align returns is empty or still contains the first pair of the first chain member (no witness exists:
+   the first pair of the first chain member is less-on-both-sequences than the start of every later member, because an admissible join
+   starts at or after the middle of its predecessor, so no conflict region ever contains it).  Hence C07_join_total (full, in place of
+   C07_join_total_partial).  NOT covered by section 7: that every written file satisfies the hypothesis of C07_reader_total (for the
+   non-joined rows see C01_run_rows_valid; joined rows: open finding F10), queries with equal ids, maps with coincident labels.
 
    Units: positions in tenths of bp, scores in 1/20 (Core.v).  P : params with SU = 20*unmatchedPenalty, MS = 20*minScore.
    The only parameter hypotheses are SU P <= 0 (the code raises ValueError("penalty should be negative") for a positive
@@ -43,6 +50,8 @@
 From Coq Require Import ZArith QArith List Bool String Sorting.Sorted.
 Import ListNotations.
 Require Import Py Pairing Core Multi Cigar CigarProofs Xmap XmapProofs2 ChainCore Checkers ConflictProofs TotalProofs1 TotalProofs2 TotalProofs3.
+Require Import Coordinator ResolverProofs10 RunProofs1 RunProofs2.
+Require ModesExamples RunProofs4.
 Open Scope Z_scope.
 
 (* ================================================================== 1. segment factory, ordering key, chain: never raise ========== *)
@@ -141,7 +150,8 @@ Proof. exact (unaligned_fragments_total w qpos). Qed.
 
 (* AlignmentResultRow.resolve.  FULL STATEMENT: for rows a, b built by Aligner.align (with at least one pair each) join_rows a b = Ok _.
    PARTIAL: the join does not raise when both parts have a pair and the FIRST segment of each part is empty or has an aligned pair
-   (missing: that Aligner.align never returns a row whose first segment is non-empty without pair) *)
+   (missing HERE: that Aligner.align never returns a row whose first segment is non-empty without pair; now proved,
+   C07_aligner_first_segment_defined, and the full statement is C07_join_total in section 7) *)
 Theorem C07_join_total_partial a b : row_pairs (rsegs a) <> [] -> row_pairs (rsegs b) <> [] ->
   (forall s, seg0 a = Ok s -> seg_defined s) -> (forall s, seg0 b = Ok s -> seg_defined s) ->
   exists r, join_rows a b = Ok r.
@@ -245,6 +255,70 @@ Example C07_nonvacuous :
 Proof. split; [|split]; [repeat (apply SSorted_cons || apply SSorted_nil || apply Forall_cons || apply Forall_nil); discriminate ..|].
   split; [discriminate|]. split; [reflexivity|]. split; [vm_compute; reflexivity|]. eexists. split; [vm_compute; reflexivity|]. split; vm_compute; reflexivity. Qed.
 
+(* ================================================================== 7. the whole run (model/Coordinator.v) ======================= *)
+(* engine_ok P reference query := 0 <= DMAX P /\ 0 < MS P /\ SU P <= 0 /\ both position lists strictly ascending (ResolverProofs10).
+   segments[0] of every row Aligner.align returns is empty or has an aligned pair: its startPosition / endPosition never raise *)
+Theorem C07_aligner_first_segment_defined P it reference query peaks rev_ segs s0 t : engine_ok P reference query ->
+  aligner_align P it reference query peaks rev_ = Ok segs -> segs = s0 :: t ->
+  seg_defined s0 /\ exists a e, start_position s0 = Ok a /\ end_position s0 = Ok e.
+Proof. exact (fun Hok H E => let D := aligner_head_defined P it reference query peaks rev_ segs s0 t Hok H E in conj D (seg_defined_positions s0 D)). Qed.
+(* with a negative maxPairDistance no pair is ever built (such rows are dropped by execute) *)
+Theorem C07_negative_distance_no_pairs P it reference query peaks rev_ segs : SU P <= 0 -> 0 < MS P -> DMAX P < 0 ->
+  aligner_align P it reference query peaks rev_ = Ok segs -> row_pairs segs = [].
+Proof. exact (aligner_neg_no_pairs P it reference query peaks rev_ segs). Qed.
+(* FULL statement of C07_join_total_partial: AlignmentResultRow.resolve never raises on two rows built by Aligner.align (any two calls:
+   whole query / fragment, any references, any peaks) that have at least one pair each *)
+Theorem C07_join_total P it1 ref1 q1 peaks1 rev1 segs1 it2 ref2 q2 peaks2 rev2 segs2 a b :
+  engine_ok P ref1 q1 -> engine_ok P ref2 q2 ->
+  aligner_align P it1 ref1 q1 peaks1 rev1 = Ok segs1 -> aligner_align P it2 ref2 q2 peaks2 rev2 = Ok segs2 ->
+  rsegs a = segs1 -> rsegs b = segs2 -> row_pairs (rsegs a) <> [] -> row_pairs (rsegs b) <> [] ->
+  exists r, join_rows a b = Ok r.
+Proof. exact (join_rows_aligner_total P it1 ref1 q1 peaks1 rev1 segs1 it2 ref2 q2 peaks2 rev2 segs2 a b). Qed.
+
+(* seeds_ok refs seeds := forall q sd, In sd (seeds refs q) -> In (sd_ref sd) refs      (the seeding stage proposes only maps it was given)
+   ascending m        := StronglySorted Z.lt (mpositions m)
+   trimmed q          := mshift q = 0 /\ ascending q /\ mpositions q <> [] /\ hd 0 (mpositions q) = 0 /\ mlen q = last (mpositions q) 0 + K
+   Each pass: every candidate row is built (C07_aligner_total), the best one chosen, pair-less rows dropped ... *)
+Theorem C07_pass_total P (seeds : seeding) refs qs it : SU P <= 0 -> 0 < MS P -> exists r, execute P seeds refs qs it = Ok r.
+Proof. exact (fun Hsu Hms => execute_total P seeds refs Hsu Hms qs it). Qed.
+(* ... getUnalignedFragments finds the query of every first-pass row (its id is the id of exactly one query) and, on the '+' strand, finds
+   QryStartPos / QryEndPos among the positions of that query (they are positions of paired query labels); what it returns are fragments
+   of the queries (a prefix, or a suffix with the label-number offset) ... *)
+Theorem C07_fragments_pass_total P (seeds : seeding) refs qs rows1 it1 : SU P <= 0 -> 0 < MS P -> seeds_ok refs seeds ->
+  (forall r, In r refs -> ascending r) -> (forall q, In q qs -> ascending q) -> NoDup (map mid qs) ->
+  execute P seeds refs qs 1 = Ok (rows1, it1) ->
+  exists frags, all_fragments rows1 qs = Ok frags /\ Forall (fun f => exists q, In q qs /\ fragment_of q f) frags.
+Proof. exact (fun Hsu Hms Hs Hr Hq Hn => first_pass_fragments P seeds refs Hsu Hms Hs Hr qs Hq Hn rows1 it1). Qed.
+(* ... AlignmentResults.resolve never raises on rows whose segments[0] are defined ... *)
+Theorem C07_resolve_total rows maxdiff :
+  (forall w, In w rows -> row_pairs (rsegs w) <> [] /\ forall s, seg0 w = Ok s -> seg_defined s) -> exists r, results_resolve rows maxdiff = Ok r.
+Proof. exact (results_resolve_total rows maxdiff). Qed.
+(* ... hence THE RUN NEVER RAISES: every mode, every maxDifference, every seeding function with seeds_ok *)
+Theorem C07_run_total P (seeds : seeding) m maxdiff refs qs : SU P <= 0 -> 0 < MS P -> seeds_ok refs seeds ->
+  (forall r, In r refs -> ascending r) -> (forall q, In q qs -> trimmed q) -> NoDup (map mid qs) ->
+  exists o, program_run P seeds m maxdiff refs qs = Ok o.
+Proof. exact (run_total P seeds m maxdiff refs qs). Qed.
+(* (of `trimmed` only the strictly ascending positions are used) *)
+Theorem C07_run_total_untrimmed P (seeds : seeding) m maxdiff refs qs : SU P <= 0 -> 0 < MS P -> seeds_ok refs seeds ->
+  (forall r, In r refs -> ascending r) -> (forall q, In q qs -> ascending q) -> NoDup (map mid qs) ->
+  exists o, program_run P seeds m maxdiff refs qs = Ok o.
+Proof. exact (fun Hsu Hms Hs Hr Hq Hn => program_run_total P seeds refs Hsu Hms Hs Hr qs Hq Hn m maxdiff). Qed.
+
+(* non-vacuity: the run of proofs/ModesExamples.v (default parameters, one reference of 16 labels, one query = reference labels 1-6, a 30 kb
+   insertion, labels 7-12; the seeding function seeds the query at its true offset and its fragment 30 kb to the left) meets every
+   hypothesis, and all four modes return their files (rows shown as RefContigID, QryContigID, AlignedRest, confidence x20, pairs) *)
+Example C07_run_total_nonvacuous :
+  SU ModesExamples.ex_P <= 0 /\ 0 < MS ModesExamples.ex_P /\ seeds_ok [ModesExamples.ex_ref] ModesExamples.ex_seeds /\
+  (forall r, In r [ModesExamples.ex_ref] -> ascending r) /\ (forall q, In q [ModesExamples.ex_query] -> trimmed q) /\
+  NoDup (map mid [ModesExamples.ex_query]) /\
+  RunProofs4.run_files Separate 110000 = Some ([RunProofs4.run_first], Some [RunProofs4.run_second], None) /\
+  RunProofs4.run_files All_ 110000 = Some ([(1, 7, false, 240000, ModesExamples.ex_p16 ++ ModesExamples.ex_p712)], Some [RunProofs4.run_first], Some [RunProofs4.run_second]) /\
+  RunProofs4.run_files Joined 109999 = Some ([], Some [RunProofs4.run_first; RunProofs4.run_second], None) /\
+  RunProofs4.run_files Best 110000 = Some ([(1, 7, false, 240000, ModesExamples.ex_p16 ++ ModesExamples.ex_p712)], None, None).
+Proof. split; [discriminate|]. split; [reflexivity|]. split; [exact RunProofs4.ex_seeds_ok|].
+  split; [exact (fun r H => proj2 (RunProofs4.ex_ref_ok r H))|]. split; [exact RunProofs4.ex_query_trimmed|]. split; [exact RunProofs4.ex_ids|].
+  vm_compute. repeat split; reflexivity. Qed.
+
 Print Assumptions C07_factory_segments_have_pairs.
 Print Assumptions C07_segment_accessors_total.
 Print Assumptions C07_chain_total.
@@ -270,3 +344,11 @@ Print Assumptions C07_pairless_join_before_F9.
 Print Assumptions C07_pairless_join_not_reported_on_F9_witness.
 Print Assumptions C07_cigar_total.
 Print Assumptions C07_reader_total.
+Print Assumptions C07_aligner_first_segment_defined.
+Print Assumptions C07_negative_distance_no_pairs.
+Print Assumptions C07_join_total.
+Print Assumptions C07_pass_total.
+Print Assumptions C07_fragments_pass_total.
+Print Assumptions C07_resolve_total.
+Print Assumptions C07_run_total.
+Print Assumptions C07_run_total_untrimmed.
